@@ -17,7 +17,7 @@ VERBS = ["head", "head-neg", "head-g", "tail", "tail-plus", "tail-g", "tac", "ta
          "decimate-g", "uniq-a", "cat-n-g", "cat-N", "having-at-least", "having-which-are", "having-at-most", "having-all-matching", "having-any-matching", "having-none-matching", "grep", "grep-v", "grep-i", "grep-a", "nothing",
          "shuffle", "bootstrap", "sample", "group-like", "skip-trivial", "head-tail-law", "head-then-head", "uniq-a-c-sum", "sec-chain"]
 
-FILTERS = ["$v > %d", "$v <= %d", '$g == "a" || $v < %d', "is_present($g) && $v != %d", "$nosuch > %d", "$v > %d && true", "!($v < %d)",
+FILTERS = ["$v > %d", "$v <= %d", '$g == "a" || $v < %d', "is_present($g) && $v != %d", "$nosuch > %d", "$v > %d && true", "is_absent($v) || !($v < %d)",
            '$g =~ "^[ab]$" || $v == %d', "is_absent($g) || $v >= %d", "$x . \"\" == \"0x0F\" || $v > %d", "NR %% 2 == 0 || $v > %d"]
 
 
